@@ -15,8 +15,8 @@ import itertools
 
 PRELUDE = '''
 from typing import (Generic, TypeVar, Callable, Literal, Type, Sequence, Optional, Union, NoReturn, Tuple,
-                    NamedTuple, Protocol, TypedDict, Iterable, Mapping)
-from typing_extensions import Unpack
+                    NamedTuple, Protocol, TypedDict, Iterable, Mapping, List, Dict)
+from typing_extensions import Unpack, ReadOnly
 import enum
 T = TypeVar("T"); Tco = TypeVar("Tco", covariant=True); Tcn = TypeVar("Tcn", contravariant=True)
 class A: pass
@@ -56,6 +56,9 @@ class TD(TypedDict):
 class TD2(TypedDict):
     x: int
     y: str
+class TDb(TypedDict):
+    x: int
+class MyT(Tuple[A, B]): pass
 class TDopt(TypedDict, total=False):
     x: int
 class NT(NamedTuple):
@@ -89,7 +92,8 @@ def model_depth1() -> list[str]:
     for g in ["Inv", "Co", "Cn", "CoP", "CnP", "InvCo", "Sequence"]:
         for a in ["A", "B", "E"]:
             out.append(f"{g}[{a}]")
-    out += ["Sub", "CoSub", "Co[None]", "Co[NoReturn]", "Inv[None]", "Cn[object]", "Co[object]", "Sequence[bytes]",
+    out += ["Sub", "CoSub", "Co[None]", "Co[NoReturn]", "Inv[None]", "Cn[object]", "Co[object]", "Cn[NoReturn]",
+            "Inv[NoReturn]", "Cn[None]", "Inv[object]", "CnP[NoReturn]", "Sequence[NoReturn]", "Sequence[bytes]",
             "Sequence[int]", "Co[int]", "Co[Literal[1]]"]
     for a in ["A", "B", "E", "int", "bytes", "NoReturn"]:
         out.append(f"Tuple[{a}, ...]")
@@ -225,3 +229,30 @@ def callable_family(rng, thorough: bool) -> list[tuple[str, str]]:
         fname = f"g{len(out)}"
         out.append((f"def ({sig})", f"def {fname}({sig}) -> A: raise NotImplementedError\n"))
     return out
+
+
+# ---------------------------------------------------------------------------- nested near-equal pairs (search only)
+# Base types that are look-alikes / mutual non-proper subtypes of one another (a NamedTuple, a tuple subclass and the
+# plain tuple of the same shape; two TypedDicts with the same keys; an enum and the union of its literals; A | B and
+# A; Type[A] and its constructor signature; int / Literal / float) and Never / None / object, each also wrapped in
+# generics of every variance, list / dict / Sequence / Mapping, a tuple, and a mutable and a ReadOnly TypedDict item.
+NEST_BASES_QUICK = ["NT", "Tuple[A, B]", "MyT", "TD", "TDb", "Literal[1]", "int", "Color",
+                    "Literal[Color.R] | Literal[Color.G]", "NoReturn", "None", "object", "A", "A | B", "Type[A]"]
+NEST_BASES_MORE = ["TD2", "Callable[[], A]", "TDopt", "bool", "Literal[True] | Literal[False]", "float", "int | float", "B | A", "Literal[Color.R]",
+                   "Tuple[A, A]", "Tuple[A, ...]", "Callable[[A], A]", "Type[B]", "PI", "P"]
+NEST_WRAPPERS_QUICK = ["Inv[{}]", "Co[{}]", "Cn[{}]", "List[{}]", "Tuple[{}, A]"]
+NEST_WRAPPERS_MORE = ["Dict[str, {}]", "Sequence[{}]", "Mapping[str, {}]"]
+
+
+def nest_family(thorough: bool) -> tuple[str, list[tuple[str, str]]]:
+    """(extra source with the TypedDict wrapper classes, [(display name, annotation)])."""
+    bases = NEST_BASES_QUICK + (NEST_BASES_MORE if thorough else [])
+    src = ""
+    out: list[tuple[str, str]] = [(b, b) for b in bases]
+    for i, b in enumerate(bases):
+        for w in NEST_WRAPPERS_QUICK + (NEST_WRAPPERS_MORE if thorough else []):
+            out.append((w.format(b), w.format(b)))
+        src += f"class NM{i}(TypedDict):\n    k: {b}\nclass NR{i}(TypedDict):\n    k: ReadOnly[{b}]\n"
+        out.append((f"TypedDict({{k: {b}}})", f"NM{i}"))
+        out.append((f"TypedDict({{k: ReadOnly[{b}]}})", f"NR{i}"))
+    return src, out
